@@ -6,7 +6,8 @@
                N in {4,5,7}, unequal stakes, more rounds.  Every GSim behaviour is a behaviour of HotStuff!Spec
                (with a large enough universe); the focus only makes random walks deep instead of wide. *)
 EXTENDS HotStuff, Json
-CONSTANTS MaxTimeouts, MaxByzMsgs, SchedDepth
+CONSTANTS MaxTimeouts, MaxByzMsgs, SchedDepth,
+          LatePayload   \* simulation regime: proposals may arrive before their batches (payload waiter, loop-back path)
 
 S4  == [i \in 0..3 |-> 1]
 S5  == [i \in 0..4 |-> 1]
@@ -75,6 +76,18 @@ PByzProposal(n, p) ==
     /\ p \notin ns[n].parked /\ p.blk \notin ns[n].stored
     /\ Publish(n, HandleProposal(ns[n], p, TRUE), PCause(p))
     /\ Lbl([a |-> "ByzProposal", n |-> n, blk |-> p.blk, tc |-> p.tc])
+\* the proposal reaches n before (one of) its batches: the payload waiter parks it; it is looped back when the batch arrives
+PLateProposal(n, p) ==
+    /\ Auth(p.blk) # n
+    /\ \/ \E q \in proposals : q.blk = p.blk
+       \/ Auth(p.blk) \in Byz /\ Certified(Par(p.blk)) /\ Rnd(Par(p.blk)) < Rnd(p.blk)
+    /\ (p.tc = NoTC \/ p.tc \in tcs \/ ConstructibleTC(p.tc))
+    /\ p \notin ns[n].parked /\ p.blk \notin ns[n].stored /\ ~\E q \in ns[n].pwait : q.blk = p.blk
+    /\ Publish(n, HandleProposal(ns[n], p, FALSE), PCause(p))
+    /\ Lbl([a |-> "LateProposal", n |-> n, blk |-> p.blk, tc |-> p.tc])
+PPayloadResume(n, b) ==
+    /\ \E p \in ns[n].pwait : p.blk = b /\ DoPayloadResume(n, p)
+    /\ Lbl([a |-> "PayloadResume", n |-> n, blk |-> b])
 PHonestVote(n, w) ==
     /\ w \in votes /\ (w.to = n \/ w.to \in Byz) /\ Rnd(w.blk) >= ns[n].r
     /\ Publish(n, HandleVote(ns[n], [blk |-> w.blk, author |-> w.author]), NoCause)
@@ -112,6 +125,13 @@ SimByzProposal(n) ==
   /\ ByzRounds # {} /\ CertKnown # {}
   /\ \E r \in {Pick(ByzRounds)}, v \in {Pick(Variants)}, par \in {Pick(CertKnown)} : \E tc \in {Pick(TCPool(r))} :
         PByzProposal(n, [blk |-> <<r, Leader(r), v, par>>, tc |-> tc])
+SimLateProposal(n) ==
+  /\ LatePayload
+  /\ \/ UsefulProps(n) # {} /\ \E p \in {Pick(UsefulProps(n))} : PLateProposal(n, p)
+     \/ /\ ByzRounds # {} /\ CertKnown # {}
+        /\ \E r \in {Pick(ByzRounds)}, v \in {Pick(Variants)}, par \in {Pick(CertKnown)} : \E tc \in {Pick(TCPool(r))} :
+              PLateProposal(n, [blk |-> <<r, Leader(r), v, par>>, tc |-> tc])
+SimPayloadResume(n) == LatePayload /\ ns[n].pwait # {} /\ \E p \in {Pick(ns[n].pwait)} : PPayloadResume(n, p.blk)
 SimHonestVote(n) == UsefulVotes(n) # {} /\ \E w \in {Pick(UsefulVotes(n))} : PHonestVote(n, w)
 SimByzVote(n) == Byz # {} /\ \E b \in {Pick(KnownBlocks)}, a \in {Pick(Byz)} : PByzVote(n, b, a)
 SimHonestTimeout(n) == UsefulTimeouts(n) # {} /\ \E t \in {Pick(UsefulTimeouts(n))} : PHonestTimeout(n, t)
@@ -135,6 +155,7 @@ SimNext ==
             \/ SimStrippedProposal(n) \/ SimByzProposal(n) \/ SimByzVote(n) \/ SimByzTimeout(n)
             \/ SimByzProposal(n) \/ SimByzProposal(n) \/ SimByzVote(n)
             \/ SimTimer(n)
+            \/ SimLateProposal(n) \/ SimLateProposal(n) \/ SimPayloadResume(n) \/ SimPayloadResume(n) \/ SimPayloadResume(n)
          /\ ns' # ns
 GSim == GInit /\ [][SimNext]_gvars
 
